@@ -273,7 +273,11 @@ def gen_case(rng, thorough=False):
             ops.append(('put', rng.choice(la), rng.choice([b'', b'foreign\n', b'\x00\xff'])))
     if quiet:
         ops.append(('end',))
-    return {'L': L, 'N': N, 'opts': opts, 'gran': gran, 'base': base, 'suffix': suffix, 't0': t0, 'tz': tz, 'locale': locale, 'codec': codec, 'quiet': quiet, 'ops': ops}
+    # round 8: the sink object is obtained through the fluent front end SimplePipeline::sendToFile(path, L, N, options), which chooses
+    # between RotatingFileSink and the plain FileSink (the boundary configurations daily-only / startup-only / size-only matter)
+    front = 1 if rng.random() < 0.25 and not any(o[0] in ('w2',) for o in ops) else 0
+    return {'L': L, 'N': N, 'opts': opts, 'gran': gran, 'base': base, 'suffix': suffix, 't0': t0, 'tz': tz, 'locale': locale, 'codec': codec, 'quiet': quiet, 'ops': ops,
+            'front': front}
 
 
 # ------------------------------------------------------------------------------------ protocol
@@ -285,7 +289,8 @@ def lines_of(case, for_impl):
     ls = ['case %d %d %d %d %s %s %d %d %s %d' % (case['L'], case['N'], case['opts'], case['gran'], hx(case['base']),
                                                   hx(case['suffix']), case['t0'], case.get('tz', 0), case.get('codec') or '-',
                                                   1 if case.get('quiet') else 0)
-          + (' ' + hx(case['tzname'].encode()) if case.get('tzname') else '')]
+          + (' ' + hx(case['tzname'].encode()) if case.get('tzname') else (' -' if for_impl and case.get('front') else ''))
+          + (' 1' if for_impl and case.get('front') else '')]
     k = 0
     for o in case['ops']:
         if o[0] in ('w', 'w2'):
@@ -1162,6 +1167,7 @@ def run_check(pid):
                         'implementation_listing_at_failure': show_listing(ls[fbs]),
                         'implementation_listing_before': show_listing(ls[fbs - 1]) if fbs > 0 else None,
                         'codec': small.get('codec'), 'quiet_until_the_end': bool(small.get('quiet')),
+                        'sink_object_obtained_by': 'SimplePipeline().sendToFile(path, L, N, options)' if small.get('front') else 'RotatingFileSink(path, L, N, options)',
                         'model_listing_at_failure': show_listing(parse_listing(mo[fbs], nm, False)) if mo and fbs < len(mo) else None,
                         'falsified_cases': len(falsified), 'source_shape_is_proven_shape': shape_std}, kind=KIND[pid])
     if disagreements:
@@ -1252,6 +1258,8 @@ def run_check(pid):
         'L_histogram': hist(lambda c: c['L']), 'N_histogram': hist(lambda c: c['N']), 'options_histogram': hist(lambda c: c['opts']),
         'granularity_histogram': hist(lambda c: c['gran']), 'time_zone_minutes_histogram': hist(lambda c: c.get('tz', 0)), 'locale_histogram': hist(lambda c: c.get('locale') or 'C.UTF-8'), 'codec_histogram': hist(lambda c: c.get('codec') or 'locale (UTF-8)'),
         'quiet_cases_looked_at_only_at_the_end': sum(1 for c in cases if c.get('quiet')),
+        'sink_obtained_through_sendToFile': sum(1 for c in cases if c.get('front')),
+        'sendToFile_boundary_configurations': {k: sum(1 for c in cases if c.get('front') and c['L'] <= 0 and c['opts'] & 3 == v) for k, v in (('daily_only', 2), ('startup_only', 1), ('neither(plain FileSink)', 0))},
         'writes_while_local_date_differs_from_utc_date': tzdiff, 'file_name_histogram': hist(lambda c: Names(c['base'], c['suffix']).active.decode()),
         'seeded_cases': sum(1 for c in cases if any(o[0] == 'seed' for o in c['ops'])),
         'payload_shape_histogram': shape_h, 'message_type_histogram': mtypes, 'fatal_records_that_rotated': fatal_at_limit,
